@@ -152,7 +152,7 @@ class SelectMonitor(taps.Monitor):
             exp = OrderedDict(s["L"])
             m = np.zeros(len(s["P"]), dtype=bool)
             m[idx] = True
-            exp[label] = m
+            exp[label] = m          # a new label goes last, an existing one is redefined in place
             s2 = dict(s)
             s2["L"] = exp
             self.judge_group(ctx, r, s2, np.ones(len(s["P"]), dtype=bool), list(exp.keys()), op, check_order=True)
@@ -374,6 +374,16 @@ def w_groups(ctx, rng, i):
             g.remove_label(l)
         except ValueError:
             pass
+    if k >= 2:
+        # redefining an existing label: the label now covers exactly the given points (if every point stays labelled)
+        redo = names[int(rng.integers(0, k))]
+        others = np.zeros(g.n_points, dtype=bool)
+        for l in names:
+            if l != redo:
+                others |= g._labels_to_masks[l]
+        new_idx = np.nonzero(~others | (rng.random(g.n_points) < 0.3))[0]
+        if len(new_idx):
+            g.add_label(redo, new_idx)
     idx = np.nonzero(rng.random(g.n_points) < 0.5)[0]
     if len(idx):
         g2 = g.add_label("added", idx if rng.random() < 0.5 else idx.tolist())
